@@ -38,7 +38,7 @@ type bscript struct {
 
 func TestC09BatchedStoreFlush(t *testing.T) {
 	rec := simkit.NewRecorder(t, "C09", "batched_store_flush",
-		"rapid state machine over the real BatchedStoreBlobAccess alone: Put(blob from 8 contents, so duplicates within a batch are common) / flush() / FindMissing, batch size 1-5, upload concurrency 1-3 with generated transfer order, each step optionally arming an error or ctx-cancel fault on the back end's next FindMissing and/or the Put of one chosen blob. Oracle: flush()==nil => every blob whose Put was acknowledged since the previous flush() is in the back end and no back-end fault happened since; a back-end fault since the previous flush() => flush() returns an error; Put/flush fail only after a back-end fault (no spurious or stale errors); FindMissing issued by the adapter never exceeds the batch size; every buffer released exactly once (checked after every flush and refused Put, and at the end). NON-TRIVIAL = at least one fault reached and >=2 distinct blobs written; distinct by script hash")
+		"rapid state machine over the real BatchedStoreBlobAccess alone: Put(blob from 8 contents, so duplicates within a batch are common) / flush() / FindMissing, batch size 1-5, upload concurrency 1-3 with generated transfer order, each step optionally arming an error, ctx-cancel or ctx-cancelled-but-ignored-by-the-back-end fault on the back end's next FindMissing and/or the Put of one chosen blob. Oracle: flush()==nil => every blob whose Put was acknowledged since the previous flush() is in the back end and no back-end fault happened since; a back-end fault since the previous flush() => flush() returns an error; a failed back-end call since the previous flush() => flush() returns an error; Put/flush fail only after a back-end fault or a cancellation (no spurious or stale errors); FindMissing issued by the adapter never exceeds the batch size; every buffer released exactly once (checked after every flush and refused Put, and at the end). NON-TRIVIAL = at least one fault reached and >=2 distinct blobs written; distinct by script hash")
 	pool := contentPool
 	rapid.Check(t, func(rt *rapid.T) {
 		sc := bscript{
@@ -70,25 +70,31 @@ func TestC09BatchedStoreFlush(t *testing.T) {
 
 			// Model.
 			acked := map[string]bool{} // contents acknowledged since the last flush()
-			var pendingFaults []string // back-end faults (inside the adapter) since the last flush()
+			var pendingFaults []string // failed back-end calls (inside the adapter) since the last flush()
+			// Cancellations the back end ignored since the last flush():
+			// nothing failed, but the adapter may rightly give up.
+			var pendingCancels []string
 			ackedSinceFlush := 0
 
 			// arm draws the fault plan of one step and returns a function
 			// that collects what the step did to the back end.
 			type stepInfo struct {
-				reached       []string
-				adapterFaults []string
+				reached       []string // everything reached
+				failed        []string // back-end calls that failed
+				adapterFaults []string // failed calls made by the adapter
+				adapterSoft   []string // ignored cancellations during adapter calls
 				calls         []callRec
 			}
 			begin := func(st *bstep, allowPutFault bool) (context.Context, func(direct bool) stepInfo) {
 				w.mu.Lock()
 				w.plan = map[string]string{}
-				st.FMFault = rapid.SampledFrom([]string{faultNone, faultNone, faultNone, faultNone, faultNone, faultError, faultCancel}).Draw(rt, "fm_fault")
+				w.ignoreCtx = false
+				st.FMFault = rapid.SampledFrom([]string{faultNone, faultNone, faultNone, faultNone, faultNone, faultNone, faultError, faultCancel, faultCancelIgnored}).Draw(rt, "fm_fault")
 				if st.FMFault != faultNone {
 					w.plan[fmt.Sprintf("FM#%d", w.fmCount)] = st.FMFault
 				}
 				if allowPutFault {
-					st.PutKind = rapid.SampledFrom([]string{faultNone, faultNone, faultNone, faultError, faultCancel}).Draw(rt, "put_fault")
+					st.PutKind = rapid.SampledFrom([]string{faultNone, faultNone, faultNone, faultNone, faultError, faultCancel, faultCancelIgnored}).Draw(rt, "put_fault")
 					if st.PutKind != faultNone {
 						st.PutOf = rapid.SampledFrom(pool).Draw(rt, "put_fault_of")
 						dk := keyOf(digestOf([]byte(st.PutOf)))
@@ -108,8 +114,16 @@ func TestC09BatchedStoreFlush(t *testing.T) {
 					info.calls = append(info.calls, w.calls[callsBefore:]...)
 					for _, f := range w.reached[reachedBefore:] {
 						info.reached = append(info.reached, f.Kind+"@"+f.Key)
-						if !direct {
-							info.adapterFaults = append(info.adapterFaults, f.Kind+"@"+f.Key)
+						switch {
+						case f.Kind == faultCancelIgnored:
+							if !direct {
+								info.adapterSoft = append(info.adapterSoft, f.Kind+"@"+f.Key)
+							}
+						default:
+							info.failed = append(info.failed, f.Kind+"@"+f.Key)
+							if !direct {
+								info.adapterFaults = append(info.adapterFaults, f.Kind+"@"+f.Key)
+							}
 						}
 					}
 					for _, c := range info.calls {
@@ -142,6 +156,7 @@ func TestC09BatchedStoreFlush(t *testing.T) {
 				} else {
 					w.mu.Lock()
 					w.plan = map[string]string{}
+					w.ignoreCtx = false
 					w.mu.Unlock()
 					ctx, end = context.Background(), nil
 				}
@@ -150,6 +165,7 @@ func TestC09BatchedStoreFlush(t *testing.T) {
 				if end != nil {
 					info := end(false)
 					pendingFaults = append(pendingFaults, info.adapterFaults...)
+					pendingCancels = append(pendingCancels, info.adapterSoft...)
 					faultsReached += len(info.reached)
 				} else {
 					st.Calls = len(w.calls) - callsBefore
@@ -178,11 +194,17 @@ func TestC09BatchedStoreFlush(t *testing.T) {
 						labels["flush_ok_2plus_blobs"] = true
 					}
 					labels["flush_ok"] = true
+					if len(pendingCancels) > 0 {
+						labels["flush_ok_after_ignored_cancel"] = true
+					}
 				} else {
-					if len(pendingFaults) == 0 {
-						rt.Fatalf("flush() failed (%v) although no back-end call failed since the previous flush; script=%+v", err, sc)
+					if len(pendingFaults) == 0 && len(pendingCancels) == 0 {
+						rt.Fatalf("flush() failed (%v) although no back-end call failed and nothing was cancelled since the previous flush; script=%+v", err, sc)
 					}
 					labels["flush_error"] = true
+					if len(pendingFaults) == 0 {
+						labels["flush_error_only_ignored_cancel"] = true
+					}
 					if ackedSinceFlush > 0 {
 						labels["flush_error_with_acked_blobs"] = true
 					}
@@ -194,6 +216,7 @@ func TestC09BatchedStoreFlush(t *testing.T) {
 				common()
 				acked = map[string]bool{}
 				pendingFaults = nil
+				pendingCancels = nil
 				ackedSinceFlush = 0
 			}
 
@@ -207,6 +230,7 @@ func TestC09BatchedStoreFlush(t *testing.T) {
 					err := store.Put(ctx, d, b)
 					info := end(false)
 					pendingFaults = append(pendingFaults, info.adapterFaults...)
+					pendingCancels = append(pendingCancels, info.adapterSoft...)
 					faultsReached += len(info.reached)
 					if err != nil {
 						st.Res = "error: " + err.Error()
@@ -219,8 +243,8 @@ func TestC09BatchedStoreFlush(t *testing.T) {
 						labels["put_triggers_flush"] = true
 					}
 					if err != nil {
-						if len(pendingFaults) == 0 {
-							rt.Fatalf("Put failed (%v) although no back-end call failed since the previous flush; script=%+v", err, sc)
+						if len(pendingFaults) == 0 && len(pendingCancels) == 0 {
+							rt.Fatalf("Put failed (%v) although no back-end call failed and nothing was cancelled since the previous flush; script=%+v", err, sc)
 						}
 						if r.closed.Load() != 1 {
 							rt.Fatalf("Put was refused but its buffer was released %d times; script=%+v", r.closed.Load(), sc)
@@ -258,7 +282,7 @@ func TestC09BatchedStoreFlush(t *testing.T) {
 					if err != nil {
 						st.Res = "error: " + err.Error()
 						sc.Steps = append(sc.Steps, st)
-						if len(info.reached) == 0 {
+						if len(info.failed) == 0 {
 							rt.Fatalf("FindMissing failed (%v) without a back-end fault; script=%+v", err, sc)
 						}
 					} else {
@@ -275,7 +299,7 @@ func TestC09BatchedStoreFlush(t *testing.T) {
 						sort.Strings(want)
 						st.Res = fmt.Sprintf("missing %d", len(got))
 						sc.Steps = append(sc.Steps, st)
-						if len(info.reached) > 0 {
+						if len(info.failed) > 0 {
 							rt.Fatalf("FindMissing succeeded although the back end failed; script=%+v", sc)
 						}
 						if fmt.Sprint(got) != fmt.Sprint(want) {
